@@ -1395,3 +1395,159 @@ Proof.
     + rewrite ordering_reverse in HLperm1. etransitivity; [apply Permutation_rev|exact HLperm1].
     + apply (PiecesL_trans _ [reverse c1]); [exact HP1|]. apply PiecesL_Ref. apply Ref_reverse.
 Qed.
+
+(* ------------------------------------------------------------------------------------------------ *)
+(* Q.set_contiguous *)
+Lemma count_st_app s a b : count_st s (a ++ b) = count_st s a + count_st s b.
+Proof. unfold count_st. now rewrite filter_app, app_length. Qed.
+
+Lemma count_st_rev s seq : count_st s (rev seq) = count_st s seq.
+Proof.
+  induction seq as [|st seq IH]; [reflexivity|]. simpl rev. rewrite count_st_app, IH, !count_st_cons.
+  change (count_st s []) with 0. destruct (status_eqb s st); lia.
+Qed.
+
+Lemma last_all_E seq d : seq <> [] -> count_st SEmpty seq = length seq -> last seq d = SEmpty.
+Proof.
+  induction seq as [|st seq IH]; intros Hne Hc; [congruence|].
+  rewrite count_st_cons in Hc. cbn [length] in Hc. pose proof (count_st_le SEmpty seq) as Hle.
+  destruct (status_eqb SEmpty st) eqn:E; [|lia]. apply status_eqb_eq in E. subst st.
+  destruct seq as [|st2 seq']; [reflexivity|]. change (last (SEmpty :: st2 :: seq') d) with (last (st2 :: seq') d).
+  apply IH; [discriminate|lia].
+Qed.
+
+Lemma one_non_empty_last (R : pq -> status -> Prop) s cs seq :
+  Forall2 R cs seq -> s <> SEmpty -> S (count_st SEmpty seq) = length seq -> count_st s seq = 1 ->
+  exists es c es2, cs = es ++ c :: es2 /\ Forall (fun e => R e SEmpty) (es ++ es2) /\ R c s /\
+                   (last seq SFull = s <-> es2 = []).
+Proof.
+  intros H Hs. induction H as [|c st cs seq Hc H IH]; intros HnE Hn1; [discriminate|].
+  rewrite !count_st_cons in *. cbn [length] in HnE.
+  pose proof (count_st_le SEmpty seq) as HleE.
+  destruct (status_eqb SEmpty st) eqn:EE.
+  - apply status_eqb_eq in EE. subst st.
+    assert (Es : status_eqb s SEmpty = false) by (destruct s; simpl; congruence). rewrite Es in *.
+    destruct IH as (es & c0 & es2 & -> & HE & Hc0 & Hlast); [lia|exact Hn1|].
+    exists (c :: es), c0, es2. simpl app. split; [reflexivity|]. split; [now constructor|]. split; [exact Hc0|].
+    destruct seq as [|st2 seq']; [inversion H; now destruct es|].
+    change (last (SEmpty :: st2 :: seq') SFull) with (last (st2 :: seq') SFull). exact Hlast.
+  - assert (HallE : count_st SEmpty seq = length seq) by lia.
+    pose proof (count_st_all R SEmpty cs seq H HallE) as HE.
+    pose proof (count_st_total seq) as Ht.
+    assert (H0 : count_st s seq = 0) by (destruct s; try congruence; lia).
+    destruct (status_eqb s st) eqn:Es; [|lia]. apply status_eqb_eq in Es. subst st.
+    exists [], c, cs. simpl app. split; [reflexivity|]. split; [exact HE|]. split; [exact Hc|]. split.
+    + destruct seq as [|st2 seq']; [inversion H; reflexivity|]. intros HL.
+      change (last (s :: st2 :: seq') SFull) with (last (st2 :: seq') SFull) in HL.
+      rewrite (last_all_E (st2 :: seq') SFull) in HL by (auto; discriminate). congruence.
+    + intros ->. inversion H. reflexivity.
+Qed.
+
+(* the part of Q.set_contiguous after the possible reversal of the children *)
+Definition q_body (v : nat) (cs : list pq) (seq : list status) : result (pq * status) :=
+  let n := length cs in
+  let nF := count_st SFull seq in
+  let nE := count_st SEmpty seq in
+  let nPA := count_st SPartA seq in
+  let nPU := count_st SPartU seq in
+  if impossible n nE nPA nPU then Err ValueErr
+  else if nF =? n then Ok (Node KQ cs, SFull)
+  else if nE =? n then Ok (Node KQ cs, SEmpty)
+  else if nPU =? 1 then Ok (Node KQ cs, SPartU)
+  else if (nPA =? 1) && (S nE =? n) then
+    Ok (Node KQ cs, if status_eqb (last seq SFull) SPartA then SPartA else SPartU)
+  else
+    match q_scan v (combine cs seq) [] false false with
+    | Err e => Err e
+    | Ok (new_children, seen_right_end) => Ok (Node KQ new_children, if seen_right_end then SPartU else SPartA)
+    end.
+
+Lemma q_cases_body v cs0 seq0 :
+  q_cases v cs0 seq0 =
+  let flip := status_eqb (last seq0 SFull) SEmpty ||
+              (status_eqb (last seq0 SFull) SPartA && (S (count_st SFull seq0) =? length cs0)) in
+  q_body v (if flip then rev cs0 else cs0) (if flip then rev seq0 else seq0).
+Proof.
+  unfold q_cases, q_body. cbv zeta.
+  destruct (status_eqb (last seq0 SFull) SEmpty || _); [|reflexivity].
+  now rewrite rev_length, !count_st_rev.
+Qed.
+
+(* the state of the scan: acc = e1 ++ fs ++ e2 (blocks without v, with v, without v) made of pieces of the
+   children done so far *)
+Definition ScanInv (v : nat) (done acc : list pq) (sn sre : bool) : Prop :=
+  Forall (fun c => proper c = true) acc /\ length done <= length acc /\
+  Permutation (flat_map ordering done) (flat_map ordering acc) /\ PiecesL acc done /\
+  exists e1 fs e2, acc = e1 ++ fs ++ e2 /\ Forall (PureE v) e1 /\ Forall (PureF v) fs /\ Forall (PureE v) e2 /\
+                   (sn = false -> fs = [] /\ e2 = []) /\ (sre = false -> e2 = []).
+
+Lemma ScanInv_step v done acc sn sre c L e' f' (front : bool) sn' sre' :
+  ScanInv v done acc sn sre ->
+  Forall (fun c => proper c = true) L -> L <> [] ->
+  Permutation (ordering c) (flat_map ordering L) -> PiecesL L [c] ->
+  Forall (PureE v) e' -> Forall (PureF v) f' ->
+  (* front: the pieces are e' ++ f' and nothing with v was seen; otherwise f' ++ e' and the right end was not seen *)
+  (if front then L = e' ++ f' /\ sn = false else L = f' ++ e' /\ (sre = false \/ f' = [])) ->
+  (sn' = false -> f' = [] /\ front = true /\ sn = false) -> (sre' = false -> (front = true \/ e' = []) /\ sre = false) ->
+  ScanInv v (done ++ [c]) (acc ++ L) sn' sre'.
+Proof.
+  intros (Hp & Hlen & Hperm & Hpieces & e1 & fs & e2 & -> & HE1 & HF & HE2 & Hsn & Hsre) HpL HneL HpermL HpiecesL HE' HF' Hfront Hsn' Hsre'.
+  split; [|split; [|split; [|split]]].
+  - apply Forall_app. auto.
+  - rewrite !app_length in *. simpl. destruct L; [congruence|simpl; lia].
+  - rewrite (flat_map_app ordering done [c]), (flat_map_app ordering (e1 ++ fs ++ e2) L).
+    change (flat_map ordering [c]) with (ordering c ++ []). rewrite app_nil_r. apply Permutation_app; assumption.
+  - now apply PiecesL_app.
+  - destruct front.
+    + destruct Hfront as [-> Hsnf]. destruct (Hsn Hsnf) as [-> ->]. rewrite !app_nil_r.
+      exists (e1 ++ e'), f', []. rewrite app_nil_r, <- app_assoc.
+      split; [reflexivity|]. split; [apply Forall_app; auto|]. split; [exact HF'|]. split; [constructor|]. split.
+      * intros Hx. destruct (Hsn' Hx) as [-> _]. auto.
+      * auto.
+    + destruct Hfront as [-> Hsref].
+      exists e1, (fs ++ f'), (e2 ++ e').
+      split; [|split; [exact HE1|split; [apply Forall_app; auto|split; [apply Forall_app; auto|split]]]].
+      * destruct Hsref as [Hsref| ->]; [rewrite (Hsre Hsref)|]; rewrite <- ?app_assoc, ?app_nil_r; reflexivity.
+      * intros Hx. destruct (Hsn' Hx) as (_ & Hf & _). discriminate.
+      * intros Hx. destruct (Hsre' Hx) as ([Hf|He] & Hs0); [discriminate|]. now rewrite He, (Hsre Hs0).
+Qed.
+
+Ltac scan_side :=
+  try assumption; try (intros Hx; discriminate Hx); try discriminate;
+  try (simpl; now rewrite app_nil_r); try apply PiecesL_refl; auto.
+
+Lemma q_scan_post v cs seq :
+  Forall2 (StOK v) cs seq -> Forall (fun c => proper c = true) cs ->
+  forall done acc sn sre res,
+    ScanInv v done acc sn sre -> q_scan v (combine cs seq) acc sn sre = Ok res ->
+    exists sn', ScanInv v (done ++ cs) (fst res) sn' (snd res).
+Proof.
+  induction 1 as [|c st cs seq Hc H IH]; intros Hp done acc sn sre res Hinv Hres.
+  - simpl in Hres. inversion Hres; subst. simpl. rewrite app_nil_r. eauto.
+  - inversion Hp as [|? ? Hpc Hp']; subst.
+    replace (done ++ c :: cs) with ((done ++ [c]) ++ cs) by (rewrite <- app_assoc; reflexivity).
+    simpl in Hres. destruct st; simpl in Hc.
+    + (* full *)
+      destruct sre; [discriminate|]. eapply (IH Hp'); [|exact Hres].
+      apply (ScanInv_step v done acc sn false c [c] [] [c] false true false); scan_side.
+    + (* empty *)
+      eapply (IH Hp'); [|exact Hres]. destruct sn.
+      * apply (ScanInv_step v done acc true sre c [c] [c] [] false true true); scan_side.
+      * apply (ScanInv_step v done acc false sre c [c] [c] [] true false sre); scan_side.
+    + (* aligned partial *)
+      destruct Hc as [HcA HcP]. destruct sre; [discriminate|]. destruct sn.
+      * assert (Hpr : proper (reverse c) = true) by now rewrite proper_reverse.
+        pose proof (simplify_spec true v (reverse c) (Al_reverse v c HcA) Hpr) as HS1. simpl negb in HS1.
+        pose proof (SimpOK_nonempty _ _ _ _ Hpr HS1) as Hne. pose proof (SimpOK_PiecesL _ _ _ _ HS1) as HP1.
+        destruct HS1 as ((e' & f' & HE' & HF' & HL) & HLp & HLperm & _). simpl in HL.
+        eapply (IH Hp'); [|exact Hres].
+        apply (ScanInv_step v done acc true false c _ e' f' false true true); scan_side.
+        -- rewrite ordering_reverse in HLperm. etransitivity; [apply Permutation_rev|exact HLperm].
+        -- apply (PiecesL_trans _ [reverse c]); [exact HP1|]. apply PiecesL_Ref, Ref_reverse.
+      * pose proof (simplify_spec false v c HcA Hpc) as HS0. simpl negb in HS0.
+        pose proof (SimpOK_nonempty _ _ _ _ Hpc HS0) as Hne. pose proof (SimpOK_PiecesL _ _ _ _ HS0) as HP0.
+        destruct HS0 as ((e' & f' & HE' & HF' & HL) & HLp & HLperm & _). simpl in HL.
+        eapply (IH Hp'); [|exact Hres].
+        apply (ScanInv_step v done acc false false c _ e' f' true true false); scan_side.
+    + discriminate.
+Qed.
